@@ -285,6 +285,10 @@ func (n *networkService) AllocIP(ctx context.Context, r *rpc.AllocIPRequest) (*r
 
 	err = n.resourceDB.Put(podID, newRes)
 	if err != nil {
+		// the request fails, hand back what it took, except what the pod already holds
+		_ = n.eniMgr.Release(context.WithoutCancel(ctx), cni, &eni.ReleaseRequest{
+			NetworkResources: excludeHeld(resp, oldRes),
+		})
 		return nil, err
 	}
 
